@@ -107,12 +107,30 @@ def config_defaults(config_tree):
 
 
 def kind_with_self(stubs_tree):
+    # read off the REAL class (fresh interpreter on the tree under test): any container of FunctionKind members will do
+    try:
+        import json
+        import subprocess
+        code = ("import json; from monkeytype.stubs import FunctionDefinition, FunctionKind; "
+                "ks = FunctionDefinition._KIND_WITH_SELF; "
+                "assert all(isinstance(k, FunctionKind) for k in ks); "
+                "print(json.dumps(sorted(k.name for k in FunctionKind if k in ks)))")
+        p = subprocess.run([common.PY, "-c", code], capture_output=True, text=True, env=common.sub_env(), timeout=60)
+        if p.returncode == 0:
+            names = json.loads(p.stdout.strip().splitlines()[-1])
+            if names and all(isinstance(n, str) for n in names):
+                return sorted(names)
+    except Exception:
+        pass
     cls = _find_class(stubs_tree, "FunctionDefinition")
     v = None
     for s in cls.body:
         if isinstance(s, ast.Assign) and any(isinstance(t, ast.Name) and t.id == "_KIND_WITH_SELF" for t in s.targets):
             v = s.value
-    if not isinstance(v, ast.Set):
+    if isinstance(v, ast.Call) and isinstance(v.func, ast.Name) and v.func.id in ("frozenset", "set") and len(v.args) == 1 \
+            and not v.keywords:
+        v = v.args[0]
+    if not isinstance(v, (ast.Set, ast.Tuple, ast.List)):
         raise ExtractError("_KIND_WITH_SELF: not a set literal")
     out = []
     for e in v.elts:
